@@ -1465,6 +1465,10 @@ MUTANTS = [
         ('src/tbb/global_control.cpp', "        threading_control::set_active_num_workers(my_active_value - 1);", "        threading_control::set_active_num_workers(my_active_value);")]),
     dict(name='c16-join-unconditionally', prop='C16', clause='D6', edits=[
         (AR_CPP, "    if (is_joinable()) {\n        my_references += arena::ref_worker;\n        return true;\n    }\n    return false;", "    my_references += arena::ref_worker;\n    return true;")]),
+    dict(name='c16-seed5-tag-stored-only-for-mailbox-tasks', prop='C16', clause='D4', edits=[(TDH, '            ed.context = task_accessor::context(*t);\n            ed.isolation = task_accessor::isolation(*t);\n            a.my_observers.notify_entry_observers(tls.my_last_observer, tls.my_is_worker);', '            ed.context = task_accessor::context(*t);\n            a.my_observers.notify_entry_observers(tls.my_last_observer, tls.my_is_worker);'), (TDH, '            ed.affinity_slot = ed.task_disp->m_thread_data->my_arena_index;\n            return result;', '            ed.affinity_slot = ed.task_disp->m_thread_data->my_arena_index;\n            ed.isolation = task_accessor::isolation(*result);\n            return result;')]),
+    dict(name='c16-local-pool-task-runs-with-the-previous-tag', prop='C16', clause='D4', edits=[(TDH, '                    ed.context = task_accessor::context(*t);\n                    ed.isolation = task_accessor::isolation(*t);\n                    continue;', '                    ed.context = task_accessor::context(*t);\n                    continue;')]),
+    dict(name='c16-critical-task-runs-with-the-previous-tag', prop='C16', clause='D4', edits=[(TDH, '        ed.context = task_accessor::context(*crit_t);\n        ed.isolation = task_accessor::isolation(*crit_t);', '        ed.context = task_accessor::context(*crit_t);\n        ed.isolation = isolation;')]),
+    dict(name='c16-stolen-task-respawned-with-the-previous-tag', prop='C16', clause='D4', edits=[(TDH, '        ed.context = task_accessor::context(*t);\n        ed.isolation = task_accessor::isolation(*t);\n        return get_critical_task(t, ed, isolation, critical_allowed);', '        ed.context = task_accessor::context(*t);\n        return get_critical_task(t, ed, isolation, critical_allowed);')]),
     # ---------------------------------------------------------------- C17
     dict(name='c17-free-always-own', prop='C17', clause='D1', edits=[
         (FE_CPP, "    if (block->isOwnedByCurrentThread()) {\n        block->freeOwnObject(object);\n    } else {", "    if (block->isOwnedByCurrentThread() || block->empty()) {\n        block->freeOwnObject(object);\n    } else {")]),
@@ -1639,6 +1643,8 @@ MUTANTS += [
 
 BENIGN = [
     # known findings must stay matched when unrelated lines move
+    dict(name='c16-b-tag-stored-before-the-context', prop='C16', edits=[(TDH, '            ed.context = task_accessor::context(*t);\n            ed.isolation = task_accessor::isolation(*t);\n            a.my_observers.notify_entry_observers(tls.my_last_observer, tls.my_is_worker);', '            ed.isolation = task_accessor::isolation(*t);\n            a.my_observers.notify_entry_observers(tls.my_last_observer, tls.my_is_worker);\n            ed.context = task_accessor::context(*t);')]),
+    dict(name='c16-b-tag-through-a-local', prop='C16', edits=[(TDH, '            ed.context = task_accessor::context(*t);\n            ed.isolation = task_accessor::isolation(*t);\n            a.my_observers.notify_entry_observers(tls.my_last_observer, tls.my_is_worker);', '            ed.context = task_accessor::context(*t);\n            const isolation_type tag = task_accessor::isolation(*t);\n            ed.isolation = tag;\n            a.my_observers.notify_entry_observers(tls.my_last_observer, tls.my_is_worker);')]),
     dict(name='c16-b-line-shift-known-finding', prop='C16', edits=[(AR_CPP, "#include \"arena.h\"\n", "// a comment\n// another comment\n#include \"arena.h\"\n")]),
     dict(name='c13-b-line-shift-known-finding', prop='C13', edits=[(CPQ_H, "namespace tbb {\nnamespace detail {\nnamespace d1 {\n", "// a comment\n// another comment\nnamespace tbb {\nnamespace detail {\nnamespace d1 {\n")]),
     dict(name='c04-b-line-shift-known-finding', prop='C04', edits=[('src/tbb/thread_data.h', "class context_list : public intrusive_list<d1::intrusive_list_node> {", "// a comment\n// another comment\nclass context_list : public intrusive_list<d1::intrusive_list_node> {")]),
